@@ -43,6 +43,10 @@ CHECKS = {
   text="Sequential histories of 60-400 Push/Fetch/Exists/Tag/Resolve/Predecessors (plus Untag, Delete, Tags, SaveIndex on the OCI layout) run on memory, OCI and file stores under their documented options; every result is compared with a content-map plus tag-map model and the full observable state is compared after every refused or failed step. Concurrent histories (4-16 goroutines, few keys, unique values) are recorded at the client boundary and checked with porcupine per content key and per reference; every Fetch result is re-hashed; Predecessors is compared at quiescence; the same workload runs under the race detector.",
   note="Concurrent-phase relaxations (statement is silent on results of overlapping writes): a Push linearized onto identical bytes may return nil or already-exists; an Untag linearized onto an untagged reference may return nil or not-found. Unjudged: a file-store name held by other bytes (only 'never wrong bytes'), the AutoGC cascade (C09), reopen (C08). Trusted: porcupine v1.3.0, the harness model, go-digest. One known finding (plain descriptor accepted although present via a named file) is listed.",
   tech="runtime monitoring: model-based sequential oracle, porcupine linearizability check of recorded histories, hook jitter, Go race detector"),
+ "C14": dict(cat="exploration",
+  text="Seeded concurrent rounds (4-32 goroutines pushing and deleting distinct referrers of 1-3 subjects through one Repository against a spec-following registry model without the Referrers API, with seeded delays and injected failures of the n-th index GET/PUT/DELETE, dirty pre-existing indexes, SkipReferrersGC on and off, mid-run capability flips). At quiescence Referrers/Predecessors must equal the acknowledged live set and the model's own referrers computation; no unexcused dangling or dirty index may remain; every failed index DELETE must be reported as a referrers-index-delete error after the new index is in place; the detected capability never changes; the same rounds run under the Go race detector.",
+  note="Trusts regmodel as the spec-following registry and its ReferrersOf as the API answer. Acknowledged means nil, or for push a ReferrersError with IsReferrersIndexDelete; operations returning other errors are unjudged. Interleavings are sampled; distinct per-tag batch traces are counted. A hang verdict is reached only from goroutine states, never from the clock.",
+  tech="runtime monitoring: concurrent stress with fault and latency injection at the HTTP boundary, quiescence oracle, race detector"),
 }
 
 PENDING_REASON = "check under construction in this session (not yet claimed); the technique applies"
